@@ -255,9 +255,10 @@ class IndependentWrites:
         if not isinstance(it, SRange):
             raise Unsupported('L3 loop over non-range iterable', s)
         n = it.length()
-        for v in active_vars():
-            if is_sym(n) and mentions(zint(n), [v.z]):
-                raise Unsupported('inner L3 trip count depends on an outer loop index', s)
+        for f_ in c.family:
+            for v in f_.vars:
+                if is_sym(n) and mentions(zint(n), [v.z]) and not (getattr(self, 'allow_branch', False) and getattr(f_.annot, 'allow_branch', False)):
+                    raise Unsupported('inner L3 trip count depends on an outer loop index', s)
         # empty loop?  (fork: facts about the generic index need n > 0)
         nonempty = ops_cmp('>', n, 0)
         if nonempty is False or (nonempty is not True and not c.decide(zbool(nonempty))):
@@ -316,12 +317,24 @@ class Poison:
         return f'<poisoned loop local {self.name}>'
 
 
+class EventLoop(IndependentWrites):
+    """Loop whose iterations only EMIT events (queue.put, hash.update, file writes, stores logged as events): the body is
+    executed once for a generic ordinal; branching on the ordinal is allowed (each whole-function path then stands for the
+    iterations satisfying its branch conditions; together the paths cover every iteration).  Nothing is summarised after
+    the loop, so no witness is needed; stores into objects that outlive the loop are refused (they have no witness)."""
+    always = True
+    allow_branch = True
+
+    def __init__(self):
+        super().__init__(witness=None, always=True)
+
+
 def family_guard_decide(ctx, cz):
     """called by Ctx.decide: refuse loop-index dependent branching inside an L3 body"""
     fam = getattr(ctx, 'family', None)
     if not fam:
         return
-    if mentions(cz, [v.z for f in fam for v in f.vars]):
+    if mentions(cz, [v.z for f in fam for v in f.vars if not getattr(f.annot, 'allow_branch', False)]):
         raise Unsupported(f'branch on the loop index inside an independent-iterations loop ({fam[-1].fname}): {str(cz)[:120]}')
 
 
